@@ -308,6 +308,8 @@ def gate_spec(c):
     dts = c.get("dts") or []
     n = len(dts)
     mn, mx, cons = d["min"], d["max"], d["constraints"]
+    if c.get("arity"):
+        mn, mx = c["arity"]     # the ONNX arity (driver, Spec/Arity.lean), not what the code declares
     if n < mn or n > mx:
         return {"status": "error", "errkind": "input.count"}
     pad = mx
